@@ -1278,11 +1278,17 @@ PROFILES = {
 
 def generate_program(tp: Tape, max_steps=8, max_extent=12, profile="general", n_inputs=None,
                      allow_zero=True, exclude_tags=(), exclude_ops=(), srcs=("asarray", "from_array", "from_zarr"),
-                     dtypes=None, max_outputs=3, min_steps=1):
+                     dtypes=None, max_outputs=3, min_steps=1, inputs=None, only_ops=None, size_cap=6000,
+                     result_cap=20000):
     n_in = n_inputs if n_inputs is not None else tp.weighted([(1, 4), (2, 5), (3, 2)])
     prog = dict(inputs=[], steps=[], outputs=[])
     sh = Shadow(prog)
     base_shape = gen_shape(tp, max_extent, allow_zero=allow_zero)
+    if inputs is not None:
+        n_in = 0
+        for inp in inputs:
+            prog["inputs"].append(inp)
+            sh.add_input(inp)
     for k in range(n_in):
         # related shapes make binary ops likely to be applicable
         rel = tp.weighted([("same", 6), ("bcast", 2), ("matmul", 2), ("fresh", 2)]) if k > 0 else "same"
@@ -1303,7 +1309,8 @@ def generate_program(tp: Tape, max_steps=8, max_extent=12, profile="general", n_
         prog["inputs"].append(inp)
         sh.add_input(inp)
     weights = {name: op.weight for name, op in OPS.items()
-               if not (set(op.tags) & set(exclude_tags)) and name not in exclude_ops}
+               if not (set(op.tags) & set(exclude_tags)) and name not in exclude_ops
+               and (only_ops is None or name in only_ops)}
     for name, w in PROFILES.get(profile, {}).items():
         if name in weights:
             weights[name] = w
@@ -1326,7 +1333,7 @@ def generate_program(tp: Tape, max_steps=8, max_extent=12, profile="general", n_
                     args.append(nvals - 1 - tp.below(min(3, nvals)))
                 else:
                     args.append(tp.below(nvals))
-            if any(sh.values[i].size > 6000 for i in args):
+            if any(sh.values[i].size > size_cap for i in args):
                 continue
             try:
                 p = op.gen(tp, *[sh.values[i] for i in args])
@@ -1353,7 +1360,7 @@ def generate_program(tp: Tape, max_steps=8, max_extent=12, profile="general", n_
         except Exception:  # noqa: BLE001 - NumPy refuses: not a valid expression
             del sh.values[nvals:], sh.exact[nvals:], sh.random[nvals:], sh.producer[nvals:], sh.lowprec[nvals:]
             continue
-        if any(np.asarray(r).size > 20000 or np.asarray(r).ndim > 4 for r in rs):
+        if any(np.asarray(r).size > result_cap or np.asarray(r).ndim > 4 for r in rs):
             del sh.values[nvals:], sh.exact[nvals:], sh.random[nvals:], sh.producer[nvals:], sh.lowprec[nvals:]
             continue
         prog["steps"].append(step)
